@@ -14,7 +14,6 @@ def _nontrivial(recs):
 PROP = dict(
     specdir="tracker", engine="c26",
     mc=[dict(module="Handout", cfg="MC_Handout.cfg"),
-        dict(module="Handout", cfg="MC_Handout_asbuilt.cfg", tiers=("thorough",)),
         dict(module="Handout", cfg="MC_Handout_thorough.cfg", tiers=("thorough",))],
     trace=dict(module="HandoutTrace", cfg="HandoutTrace.cfg"),
     chunk_lines=2500, max_rejections=10,
@@ -28,6 +27,5 @@ PROP = dict(
          "populated torrent",
     assumptions=["origin peer ids are disjoint from announcing peer ids (origins run with announcing disabled)",
                  "the origin store is a fake returning a fixed origin set per digest",
-                 "only histories with cfg.strict=true check the never-lists-the-announcer clause (known finding F26); "
-                 "all histories check every other clause"],
+                 "F26 (announcer handed out to itself) was repaired in /repo 483b8c2; every history checks every clause"],
 )
